@@ -49,12 +49,7 @@ func exactAlloc() uint64 {
 var inflated = []int64{1 << 16, 1 << 20, 1<<31 - 1, 1 << 31, 1 << 40, 1 << 62, 1<<63 - 1}
 
 func pickType(c *simkit.Choices, allowUnsupported bool) *model.TypeEntry {
-	for {
-		te := &model.Catalogue[c.N(len(model.Catalogue))]
-		if te.Supported || allowUnsupported {
-			return te
-		}
-	}
+	return model.PickType(c, true, false, allowUnsupported)
 }
 
 // genStream draws a well-formed basic event stream: the fold of a catalogue
@@ -70,7 +65,7 @@ func genStream(c *simkit.Choices, x *simkit.Ctx, like *model.TypeEntry) ([]simki
 		}
 		fallthrough
 	case 2:
-		te := pickType(c, false)
+		te := model.PickType(c, false, false, false)
 		if evs := reuse.RecordFold(te.Gen(c)); evs != nil {
 			return evs, "fold(" + te.Name + ")"
 		}
